@@ -35,7 +35,7 @@ def ok_blocks(f):
     return [bi for bi, b in enumerate(f.blocks) for s in b["s"] if s["k"] == "assign" and s["p"]["l"] in Q.ret_locals(f) and not s["p"].get("pr") and s["r"]["k"] == "agg" and s["r"].get("variant") == "Ok"]
 
 
-def conj_table(ctx, R, key, f, atoms, good, targets, start=0, what="", need_all_targets=True, atomic=None):
+def conj_table(ctx, R, key, f, atoms, good, targets, start=0, what="", need_all_targets=True, atomic=None, complete=False):
     """targets reachable only on the all-good row (must-not-reach rows are sound), and reachable there."""
     W = Walker(ctx, f, atoms, atomic=atomic)
     names, tab = W.table(targets, start=start)
@@ -55,6 +55,28 @@ def conj_table(ctx, R, key, f, atoms, good, targets, start=0, what="", need_all_
     # valid input: e.g. a certificate carrying exactly the quorum). Only reported when some good row is reached, so that
     # an unrecognised shape is still reported as such.
     incomplete = hit and bool(missed)
+    # completeness ("accepted if and only if"): when every modelled check passes, no rejection is reachable - a further
+    # condition that refuses a value although all specified checks pass is reported. Only for bodies whose checks are all
+    # atoms of the table (Result-returning, evaluated from the entry); decided per good row.
+    if complete and not bad and hit and not incomplete:
+        RL = Q.ret_locals(f)
+        errs = set()
+        Tf = ctx.T(f)
+        for bi, b_ in enumerate(f.blocks):
+            for st in b_["s"]:
+                if st["k"] == "assign" and not st["p"].get("pr") and st["p"]["l"] in RL and st["r"]["k"] == "agg" and st["r"].get("variant") == "Err":
+                    errs.add(bi)
+            t_ = b_["t"]
+            if t_["k"] == "call" and "decl" in t_["f"] and not t_["dest"].get("pr") and t_["dest"]["l"] in RL and f.callee(t_)[0].qname == "std::ops::FromResidual::from_residual":
+                errs.add(bi)
+        extra = []
+        for k in tab:
+            if all(k[i] in good[i] for i in range(len(k))):
+                r = W.reachable(dict(zip(names, k)), start)
+                if r & errs:
+                    extra.append((dict(zip(names, k)), sorted(r & errs)[:2]))
+        ctx.ob(R, key + " (nothing else rejects)", not extra, "%s: with every check passing no rejection is reachable (%d error sites)" % (what, len(errs)) if not extra else
+               "%s: a rejection is reachable although every specified check passes (%s): an additional, unspecified condition refuses valid input" % (what, extra[:1]), f.loc())
     ctx.ob(R, key, not bad and hit and not incomplete,
            "%s: reachable exactly when every check passed (%d valuations over %s)" % (what, len(tab), names) if not bad and hit and not incomplete else
            ("%s reachable although a check failed: %s" % (what, bad[:2]) if bad else
@@ -129,7 +151,7 @@ def rule_commit_qc_verify(ctx):
     atoms = [call_atom("message.verify", ["ReplicaCommit::verify"]), len_cmp_atom(["Schedule::len"]), weight_cmp_atom()]
     vm = [c["bb"] for c in T.calls() if c["q"] == AGG + "::verify_messages"]
     ctx.floor(R, "verify_messages sites", len(vm), 1)
-    conj_table(ctx, R, "guards of the signature check", f, atoms, [{True}, {"="}, {"=", ">"}], {"sigcheck": vm}, what="CommitQC signature check")
+    conj_table(ctx, R, "guards of the signature check", f, atoms, [{True}, {"="}, {"=", ">"}], {"sigcheck": vm}, what="CommitQC signature check", complete=True)
     defs_ok, nret = returns_only_after(ctx, f, [AGG + "::verify_messages"])
     ctx.ob(R, "returned result", defs_ok, "every non-error return (%d) is the result of, or dominated by the success of, verify_messages" % nret if defs_ok else "CommitQC::verify can return Ok without the aggregate signature check having succeeded", f.loc())
     # C04.6 the right things are compared
@@ -225,7 +247,7 @@ def add_table(ctx, R, q, dup_atom, consistent, verify_suffix):
     ctx.floor(R, "mutation sites in %s::add" % name, len(muts), 2)
     good = [{"Some"}, {False}, {True}, {"="}, {True}]
     conj_table(ctx, R, "%s::add guards" % name, f, atoms, good, {"set_bit": [c["bb"] for c in T.calls() if c["q"] == "bit_vec::BitVec::set"], "add_sig": [c["bb"] for c in T.calls() if c["q"] == AGG + "::add"]},
-               what="%s::add mutations (signer bit, aggregate signature)" % name, atomic=bitmap_scan_helper)
+               what="%s::add mutations (signer bit, aggregate signature)" % name, atomic=bitmap_scan_helper, complete=True)
     # the bit that is set is the signer's index; the signature added is the message's
     idx_ok = any(T.args_of(c)[1] != ("const", 0) and any(x[0] == "call" and x[1] == SCHED + "::index" for x in subterms(T.args_of(c)[1])) for c in T.calls() if c["q"] == "bit_vec::BitVec::set")
     ctx.ob(R, "%s::add bit index" % name, idx_ok, "signers.set(index(msg.key), true)" if idx_ok else "the bit set is not the signer's schedule index", f.loc())
